@@ -1,5 +1,6 @@
 import SqlObjVerif.Lemmas.Slice
 import SqlObjVerif.Lemmas.SliceX
+import SqlObjVerif.Lemmas.SelHeap
 /-!
 # C10 — slicing / indexing a select behaves like slicing / indexing the full result list
 
@@ -194,6 +195,97 @@ theorem C10_translated_chain_eq_list_slicing (d : Dialect) (xs : List α) (ops :
 
 example : evalX .sqlite [10, 11, 12, 13, 14, 15] [(some 1, some 5), (some (-3), none)] (some 0) = .item 12 := by decide
 example : evalX .mysql [10, 11, 12, 13, 14, 15] [(some 0, some 2), (some 3, none)] none = .rows [] := by decide
+
+/-! ### Re-use: one select sliced several times (sessions on a heap of select objects)
+
+`Extracted.cloneProg` / `Extracted.initProg` (namespace `PyOps`) are `SelectResults.clone` and the
+`ops`-touching statements of `SelectResults.__init__`, translated from /repo's AST into the PyOps
+embedding, in which dicts live on a heap and aliasing is visible. -/
+
+open SqlObjVerif.PyOps in
+/-- **`clone` is fresh** (translated source): for every heap, every select object, every oracle for
+    the code the translation does not look into: `self.clone(start=s, end=e)` returns; its `ops` dict is
+    at an address that did not exist before; NO dict that existed before the call is changed; the new dict
+    holds the requested window. -/
+theorem C10_translated_clone_fresh (o : Orc) (h : Heap) (p : Nat) (d : Dict) (s : Int) (e : Option Int)
+    (hwf : h.WF) (hp : h.cells p = some d) (hnl : d.get? "limit" = none) :
+    ∃ h' r d', runClone o PyOps.Extracted.initProg PyOps.Extracted.cloneProg h p (newOpsOf s e) = some (h', r)
+      ∧ h.next ≤ r ∧ r < h'.next ∧ h'.WF
+      ∧ (∀ q, q < h.next → h'.cells q = h.cells q)
+      ∧ h'.cells r = some d' ∧ d'.get? "start" = some (.int s) ∧ d'.get? "end" = some (ofOpt e)
+      ∧ d'.get? "limit" = none :=
+  clone_spec o h p d s e hwf hp hnl
+
+/-- value-level sessions equal the same session on Python lists -/
+theorem C10_session_model_eq_lists (d : Dialect) (xs : List α) (ops : List SOp) :
+    All2 (fun s l => denote xs s = some l ∧ s.WF) (runA d xs ops) (runP xs ops) := by
+  unfold runA runP
+  have h0 : All2 (fun s l => denote xs s = some l ∧ s.WF) [(Sel.q ⟨0, none⟩ : Sel α)] [xs] :=
+    .cons ⟨by simp [denote, window, takeOpt], by intro e h; simp at h⟩ .nil
+  generalize ([Sel.q ⟨0, none⟩] : List (Sel α)) = av at h0
+  generalize [xs] = pv at h0
+  have hstep : stepSelX d xs = stepSel d xs := by
+    funext s op
+    obtain ⟨a, b⟩ := op
+    cases s <;> simp [stepSelX, stepSel, sliceSelX_eq]
+  induction ops generalizing av pv with
+  | nil => exact h0
+  | cons op ops ih =>
+    simp only [List.foldl]
+    apply ih
+    obtain ⟨i, a, b⟩ := op
+    rcases forall2_get h0 i with ⟨h1, h2⟩ | ⟨s, l, h1, h2, hd, hw⟩
+    · simpa [astep, pstep, h1, h2] using h0
+    · simp only [astep, pstep, h1, h2, hstep]
+      exact forall2_push h0 (C10_slice_step d xs s l (a, b) hd hw)
+
+open SqlObjVerif.PyOps in
+theorem rel_rows (d : Dialect) (xs : List α) (H : Heap) (c : CVal α) (s : Sel α) (l : List α)
+    (hxy : Rel H c s) (hden : denote xs s = some l) (hw : s.WF) : rowsOfC d xs H c = some l := by
+  cases c with
+  | sel p =>
+    cases s with
+    | q w =>
+      obtain ⟨dd, hc, hwd, _⟩ := hxy
+      simp only [denote, Option.some.injEq] at hden
+      simp only [rowsOfC, hc, Option.bind, hwd, rows_spec d xs w hw]
+      rw [← hden]
+    | _ => simp [Rel] at hxy
+  | lst l' =>
+    cases s with
+    | lst l'' =>
+      simp only [Rel] at hxy
+      subst hxy
+      simpa [rowsOfC, denote] using hden
+    | _ => simp [Rel] at hxy
+  | err =>
+    cases s with
+    | err => simp [denote] at hden
+    | _ => simp [Rel] at hxy
+
+theorem All2.comp {R : β → γ → Prop} {S : γ → δ → Prop} {T : β → δ → Prop}
+    (hT : ∀ x y z, R x y → S y z → T x z) {l1 : List β} {l2 : List γ} {l3 : List δ}
+    (h12 : All2 R l1 l2) (h23 : All2 S l2 l3) : All2 T l1 l3 := by
+  induction h12 generalizing l3 with
+  | nil => cases h23; exact .nil
+  | cons hxy _ ih =>
+    cases h23 with
+    | cons hyz hrest => exact .cons (hT _ _ _ hxy hyz) (ih hrest)
+
+open SqlObjVerif.PyOps in
+/-- **C10 for sessions, translated source.**  For every table content, every session
+    `v1 = v_i[a:b]; v2 = v_j[c:d]; …` (any earlier variable may be sliced again, any bounds), every
+    oracle: executed by the translated `__getitem__` + `clone` + `__init__` on a heap of select objects,
+    EVERY variable — the original select and all earlier windows included, read after all later slices were
+    taken — yields exactly the rows the same session gives on Python lists. -/
+theorem C10_translated_session_eq_list_slicing (o : Orc) (d : Dialect) (xs : List α) (ops : List SOp) :
+    All2 (fun c l => rowsOfC d xs (runC o d xs ops).heap c = some l) (runC o d xs ops).vals (runP xs ops) :=
+  All2.comp (fun c s l hxy hyz => rel_rows d xs _ c s l hxy hyz.1 hyz.2)
+    (session_sim o d xs ops).2 (C10_session_model_eq_lists d xs ops)
+
+/-- pagination, concretely: pages cut from the same select, then everything re-read -/
+example : (runP [10, 11, 12, 13, 14, 15] [(0, some 0, some 2), (0, some 2, some 4), (1, some 1, none), (0, none, none)])
+    = [[10, 11, 12, 13, 14, 15], [10, 11], [12, 13], [11], [10, 11, 12, 13, 14, 15]] := by decide
 
 /-! ### Non-vacuity: concrete chains, including the ones that used to fail -/
 example : evalModel .sqlite [10, 11, 12, 13, 14, 15] [(some 0, some 2), (some 3, none)] none = .rows [] := by decide
